@@ -252,13 +252,58 @@ theorem wf_leafBuild {hs : Hashes} {extra : List (List String)} {b e : J} (l : D
     obtain ⟨e1, h1, h2⟩ := bind_ok h
     exact wf_remove f e1 e (wf_baseBuild hb h1) (liftD_ok h2)
 
-theorem wf_multiBuild {hs : Hashes} {extra : List (List String)} : ∀ (ls : List DiffBaseLeaf) (b e : J),
-    wf b = true → multiBuild hs extra b ls = .ok e → wf e = true
+theorem wf_pseudoBody {orig e : J} (ho : wf orig = true) (he : wf e = true) : wf (pseudoBody orig e) = true := by
+  cases e with
+  | obj l =>
+    have hl := wf_obj_iff.1 he
+    have h1 : wfKvs (withKind orig l) = true := by
+      unfold withKind
+      cases hk : orig.get? "kind" with
+      | none => exact hl
+      | some kv =>
+        simp only []
+        refine wfKvs_insert hl ?_
+        cases orig with
+        | obj okvs => exact wf_of_lookup (wf_obj_iff.1 ho) (by simpa [get?] using hk)
+        | _ => simp [get?] at hk
+    show wf (.obj (withOwners orig (withKind orig l))) = true
+    refine wf_obj_iff.2 ?_
+    unfold withOwners
+    cases hor : ownerRefs orig with
+    | none => exact h1
+    | some o =>
+      simp only []
+      have hwo : wf o = true := by
+        unfold ownerRefs at hor
+        cases orig with
+        | obj okvs =>
+          simp only [get?] at hor
+          cases hm : lookup "metadata" okvs with
+          | none => rw [hm] at hor; cases hor
+          | some mv =>
+            rw [hm] at hor
+            cases mv with
+            | obj m => exact wf_of_lookup (wf_obj_iff.1 (wf_of_lookup (wf_obj_iff.1 ho) hm)) hor
+            | _ => cases hor
+        | _ => simp [get?] at hor
+      have hmk : wfKvs (metaKvs (withKind orig l)) = true := by
+        unfold metaKvs
+        cases hm : lookup "metadata" (withKind orig l) with
+        | none => rfl
+        | some mv =>
+          cases mv with
+          | obj mm => exact wf_obj_iff.1 (wf_of_lookup h1 hm)
+          | _ => rfl
+      exact wfKvs_insert h1 (wf_obj_iff.2 (wfKvs_insert hmk hwo))
+  | _ => exact he
+
+theorem wf_multiBuild {hs : Hashes} {extra : List (List String)} {orig : J} (ho : wf orig = true) :
+    ∀ (ls : List DiffBaseLeaf) (b e : J), wf b = true → multiBuild hs extra orig b ls = .ok e → wf e = true
   | [], b, e, hb, h => by simp [multiBuild] at h; subst h; exact hb
   | l :: ls, b, e, hb, h => by
     simp only [multiBuild] at h
     obtain ⟨e1, h1, h2⟩ := bind_ok h
-    exact wf_multiBuild ls e1 e (wf_leafBuild l hb h1) h2
+    exact wf_multiBuild ho ls e1 e (wf_leafBuild l (wf_pseudoBody ho hb) h1) h2
 
 theorem wf_progressClear : ∀ (p : ProgressCfg) (e e' : J), wf e = true → progressClear e p = .ok e' → wf e' = true
   | [], e, e', he, h => by simp [progressClear] at h; subst h; exact he
@@ -296,6 +341,6 @@ theorem wf_essence {cfg : Cfg} {extra : List (List String)} {b e : J} (hb : wf b
     rw [hd] at h1
     simp only [diffbaseBuild] at h1
     obtain ⟨e0, h0, h3⟩ := bind_ok h1
-    exact wf_multiBuild ls e0 e1 (wf_baseBuild hb h0) h3
+    exact wf_multiBuild hb ls e0 e1 (wf_baseBuild hb h0) h3
 
 end Kopf.C04
